@@ -786,4 +786,540 @@ theorem runFrom_ok {p : Pat} {cfg : Cfg} (hfrag : p.inFragment = true) :
       exact genuine_mono hs' (hstep.2 m hm)
     · exact hrest.2 x hx m hm
 
+/-! ## C02: the engine on `all`-free patterns is the per-candidate scan `Spec.followNF` -/
+
+theorem allFree_get {p : Pat} (h : p.allFree = true) {i : Nat} {s : Step} (hs : p.steps[i]? = some s) : s.kleene = false := by
+  unfold Pat.allFree at h
+  have := List.all_eq_true.mp h s (List.mem_of_getElem? hs)
+  simpa using this
+
+/-- the run `r` after consuming `e` into the next step -/
+def Run.entered (r : Run) (e : Event) (a : Option String) : Run := { r with pos := r.pos + 1 }.push e a
+
+/-- `advance` on an `all`-free pattern, for a run that has not reached the last step -/
+theorem advance_allFree {p : Pat} {cfg : Cfg} {r : Run} {e : Event} (hfree : p.allFree = true)
+    (hpos : r.pos + 1 < p.steps.length) :
+    advance p cfg r e =
+      match p.steps[r.pos + 1]? with
+      | some nxt =>
+        if matchesState nxt e r.caps then
+          (if p.isLast (r.pos + 1) then .complete (r.entered e nxt.alias).result else .continue (r.entered e nxt.alias))
+        else .noMatch
+      | none => .noMatch := by
+  have hcur : p.steps[r.pos]? = some p.steps[r.pos] := List.getElem?_eq_getElem (by omega)
+  have hk := allFree_get hfree hcur
+  have hnl : p.isLast r.pos = false := by unfold Pat.isLast; simp; omega
+  unfold advance
+  rw [hcur]
+  simp only [hk, hnl, Bool.false_and, Bool.not_false, if_true]
+  simp only [Bool.false_eq_true, if_false]
+  unfold viaTransitions
+  cases hn : p.steps[r.pos + 1]? with
+  | none => rfl
+  | some nxt =>
+    have hkn := allFree_get hfree hn
+    simp only []
+    by_cases hm : matchesState nxt e r.caps = true
+    · rw [if_pos hm, if_pos hm]
+      unfold enterNext Run.entered
+      simp [hkn]
+    · rw [if_neg hm, if_neg hm]
+
+/-- light invariant of the runs of partition `k` for `all`-free patterns -/
+structure Lite (p : Pat) (k : String) (r : Run) : Prop where
+  capsEq : r.caps = capsOf r.stack
+  pos : r.pos + 1 < p.steps.length
+  ne : r.stack ≠ []
+  part : ∀ en ∈ r.stack, keyOf p en.ev = k
+
+/-- the match a stored run will produce on the events `later` -/
+def fut (p : Pat) (k : String) (later : List Event) (r : Run) : Option Match :=
+  if r.invalidated then none else Spec.followNF p k (p.steps.drop (r.pos + 1)) r.stack later
+
+/-- what the loop keeps of a run / emits for a run -/
+def survive (p : Pat) (cfg : Cfg) (e : Event) (r : Run) : Option Run :=
+  if r.invalidated then none else
+  match advance p cfg r e with
+  | .continue r' => some r'
+  | .complete _ => none
+  | .completeAndContinue r' _ => some r'
+  | .noMatch => some r
+
+def emitOf (p : Pat) (cfg : Cfg) (e : Event) (r : Run) : Option Match :=
+  if r.invalidated then none else
+  match advance p cfg r e with
+  | .complete m => some m
+  | .completeAndContinue _ m => some m
+  | _ => none
+
+theorem loop2_perm (p : Pat) (cfg : Cfg) (e : Event) (done pending : List Run) (acc : List Match) :
+    ((loop2 p cfg e done pending acc).1.Perm (done ++ pending.filterMap (survive p cfg e))) ∧
+    ((loop2 p cfg e done pending acc).2.Perm (acc ++ pending.filterMap (emitOf p cfg e))) := by
+  fun_induction loop2 p cfg e done pending acc with
+  | case1 done acc => simp
+  | case2 done r rest acc hinv ih =>
+    have h1 := (rot_perm rest).filterMap (survive p cfg e)
+    have h2 := (rot_perm rest).filterMap (emitOf p cfg e)
+    refine ⟨ih.1.trans ?_, ih.2.trans ?_⟩
+    · simp [survive, hinv]; exact h1.append_left _
+    · simp [emitOf, hinv]; exact h2.append_left _
+  | case3 done r rest acc hinv r' hadv ih =>
+    refine ⟨ih.1.trans ?_, ih.2.trans ?_⟩
+    · simp [survive, hinv, hadv]
+    · simp [emitOf, hinv, hadv]
+  | case4 done r rest acc hinv m hadv ih =>
+    have h1 := (rot_perm rest).filterMap (survive p cfg e)
+    have h2 := (rot_perm rest).filterMap (emitOf p cfg e)
+    refine ⟨ih.1.trans ?_, ih.2.trans ?_⟩
+    · simp [survive, hinv, hadv]; exact h1.append_left _
+    · simp [emitOf, hinv, hadv]; exact (h2.cons m).append_left _
+  | case5 done r rest acc hinv r' m hadv ih =>
+    refine ⟨ih.1.trans ?_, ih.2.trans ?_⟩
+    · simp [survive, hinv, hadv]
+    · simp [emitOf, hinv, hadv]
+  | case6 done r rest acc hinv hadv ih =>
+    refine ⟨ih.1.trans ?_, ih.2.trans ?_⟩
+    · simp [survive, hinv, hadv]
+    · simp [emitOf, hinv, hadv]
+
+theorem markNeg_inv_of_inv {p : Pat} {e : Event} {r : Run} (h : r.invalidated = true) : (markNeg p e r).invalidated = true := by
+  unfold markNeg; split <;> simp [h]
+
+theorem markNeg_hit {p : Pat} {e : Event} {r : Run} (h : negHit p e r.caps = true) : (markNeg p e r).invalidated = true := by
+  unfold markNeg; simp [h]
+
+theorem markNeg_miss {p : Pat} {e : Event} {r : Run} (h : negHit p e r.caps = false) : markNeg p e r = r := by
+  unfold markNeg; simp [h]
+
+theorem entered_result (r : Run) (e : Event) (a : Option String) (h : r.caps = capsOf r.stack) :
+    (r.entered e a).result = ⟨r.stack ++ [⟨e, a⟩], capsOf (r.stack ++ [⟨e, a⟩])⟩ := by
+  unfold Run.result
+  have := push_caps { r with pos := r.pos + 1 } e a h
+  unfold Run.entered
+  rw [this]; rfl
+
+theorem followNF_cons (p : Pat) (key : String) (s : Step) (todo : List Step) (stack : List Entry) (g : Event) (later : List Event) :
+    Spec.followNF p key (s :: todo) stack (g :: later) =
+      if negHit p g (capsOf stack) then none
+      else if keyOf p g == key && matchesState s g (capsOf stack) then
+        if todo.isEmpty then some ⟨stack ++ [⟨g, s.alias⟩], capsOf (stack ++ [⟨g, s.alias⟩])⟩
+        else Spec.followNF p key todo (stack ++ [⟨g, s.alias⟩]) later
+      else Spec.followNF p key (s :: todo) stack later := by
+  rw [Spec.followNF]
+
+theorem fut_step_other {p : Pat} {k : String} {e : Event} {es : List Event} {r0 : Run}
+    (hl : Lite p k r0) (hk : (keyOf p e == k) = false) :
+    fut p k (e :: es) r0 = fut p k es (markNeg p e r0) := by
+  unfold fut
+  by_cases hinv : r0.invalidated = true
+  · simp [hinv, markNeg_inv_of_inv hinv]
+  · simp only [hinv]
+    obtain ⟨nxt, hnxt⟩ : ∃ nxt, p.steps[r0.pos + 1]? = some nxt := ⟨_, List.getElem?_eq_getElem hl.pos⟩
+    rw [drop_cons_of_get hnxt, followNF_cons, ← hl.capsEq]
+    by_cases hn : negHit p e r0.caps = true
+    · simp [hn, markNeg_hit hn]
+    · have hn' : negHit p e r0.caps = false := by simpa using hn
+      rw [markNeg_miss hn']
+      simp [hn', hk, hinv]
+      rw [drop_cons_of_get hnxt]
+
+theorem fut_step_same {p : Pat} {cfg : Cfg} {k : String} {e : Event} {es : List Event} {r0 : Run}
+    (hfree : p.allFree = true) (hl : Lite p k r0) (hk : (keyOf p e == k) = true) :
+    (fut p k (e :: es) r0).toList =
+      (emitOf p cfg e (markNeg p e r0)).toList ++ ((survive p cfg e (markNeg p e r0)).bind (fut p k es)).toList := by
+  by_cases hinv : r0.invalidated = true
+  · simp [fut, emitOf, survive, hinv, markNeg_inv_of_inv hinv]
+  · obtain ⟨nxt, hnxt⟩ : ∃ nxt, p.steps[r0.pos + 1]? = some nxt := ⟨_, List.getElem?_eq_getElem hl.pos⟩
+    have hfut : fut p k (e :: es) r0 = Spec.followNF p k (nxt :: p.steps.drop (r0.pos + 1 + 1)) r0.stack (e :: es) := by
+      unfold fut; simp only [hinv]; rw [drop_cons_of_get hnxt]; rfl
+    rw [hfut, followNF_cons, ← hl.capsEq]
+    by_cases hn : negHit p e r0.caps = true
+    · have h1 := markNeg_hit hn
+      simp [hn, emitOf, survive, h1]
+    · have hn' : negHit p e r0.caps = false := by simpa using hn
+      rw [markNeg_miss hn']
+      have hadv := advance_allFree (cfg := cfg) (r := r0) (e := e) hfree hl.pos
+      rw [hnxt] at hadv
+      simp only [] at hadv
+      unfold emitOf survive
+      simp only [hinv, hadv]
+      simp only [hn', hk, Bool.true_and]
+      by_cases hm : matchesState nxt e r0.caps = true
+      · simp only [hm, if_true]
+        have hiff : (p.steps.drop (r0.pos + 1 + 1)).isEmpty = p.isLast (r0.pos + 1) := by
+          unfold Pat.isLast
+          have := hl.pos
+          by_cases hlast : r0.pos + 1 + 1 = p.steps.length
+          · simp [hlast]
+          · have hne : p.steps.drop (r0.pos + 1 + 1) ≠ [] := by simp; omega
+            cases hd : p.steps.drop (r0.pos + 1 + 1) with
+            | nil => exact absurd hd hne
+            | cons x xs => simp [hlast]
+        rw [hiff]
+        by_cases hlast : p.isLast (r0.pos + 1) = true
+        · simp [hlast, entered_result _ _ _ hl.capsEq]
+        · have hinv' : (r0.entered e nxt.alias).invalidated = false := by
+            simpa [Run.entered, Run.push] using hinv
+          simp [hlast]
+          unfold fut
+          simp only [hinv']
+          rfl
+      · simp [hm]
+        unfold fut
+        simp only [hinv]
+        rw [drop_cons_of_get hnxt]; rfl
+
+/-! ### the engine step, decomposed -/
+
+/-- a single-step pattern (its only step is not `all`) -/
+def Pat.oneStep (p : Pat) : Bool := p.isLast 0 && !(p.steps.head?.map (·.kleene)).getD false
+
+/-- the `try_start_run_shared` / `handle_backpressure*` part of `stepEngine` -/
+def startRun (p : Pat) (cfg : Cfg) (e : Event) (runs' : List Run) (ms : List Match) (d : Bool) : List Run × List Match × Bool :=
+  match tryStart p e with
+  | some r =>
+    if p.oneStep then (runs', ms ++ [r.result], d)
+    else if runs'.length < cfg.maxRuns then (runs' ++ [r], ms, d)
+    else (runs', ms, true)
+  | none => (runs', ms, d)
+
+theorem stepEngine_eq (p : Pat) (cfg : Cfg) (s : Eng) (e : Event) :
+    stepEngine p cfg s e =
+      (⟨fun k => if k = keyOf p e then
+            (startRun p cfg e (processRuns p cfg e ((s.parts (keyOf p e)).map (markNeg p e)) 0 []).1
+              (processRuns p cfg e ((s.parts (keyOf p e)).map (markNeg p e)) 0 []).2 s.dropped).1
+          else (s.parts k).map (markNeg p e),
+        (startRun p cfg e (processRuns p cfg e ((s.parts (keyOf p e)).map (markNeg p e)) 0 []).1
+              (processRuns p cfg e ((s.parts (keyOf p e)).map (markNeg p e)) 0 []).2 s.dropped).2.2⟩,
+       (startRun p cfg e (processRuns p cfg e ((s.parts (keyOf p e)).map (markNeg p e)) 0 []).1
+              (processRuns p cfg e ((s.parts (keyOf p e)).map (markNeg p e)) 0 []).2 s.dropped).2.1) := by
+  unfold stepEngine startRun Pat.oneStep
+  simp only []
+  generalize processRuns p cfg e ((s.parts (keyOf p e)).map (markNeg p e)) 0 [] = res
+  obtain ⟨runs', ms⟩ := res
+  simp only []
+  cases tryStart p e with
+  | none => rfl
+  | some r =>
+    simp only []
+    split
+    · rfl
+    · split <;> rfl
+
+theorem Lite.mark {p : Pat} {k : String} {r : Run} {e : Event} (h : Lite p k r) : Lite p k (markNeg p e r) := by
+  unfold markNeg
+  split
+  · exact ⟨h.capsEq, h.pos, h.ne, h.part⟩
+  · exact h
+
+theorem Lite.survive {p : Pat} {cfg : Cfg} {k : String} {r r' : Run} {e : Event} (hfree : p.allFree = true)
+    (h : Lite p k r) (hk : keyOf p e = k) (hs : survive p cfg e r = some r') : Lite p k r' := by
+  unfold Varpulis.Sase.survive at hs
+  by_cases hinv : r.invalidated = true
+  · simp [hinv] at hs
+  · simp only [hinv] at hs
+    have hadv := advance_allFree (cfg := cfg) (r := r) (e := e) hfree h.pos
+    obtain ⟨nxt, hnxt⟩ : ∃ nxt, p.steps[r.pos + 1]? = some nxt := ⟨_, List.getElem?_eq_getElem h.pos⟩
+    rw [hnxt] at hadv
+    simp only [] at hadv
+    rw [hadv] at hs
+    by_cases hm : matchesState nxt e r.caps = true
+    · simp only [hm, if_true] at hs
+      by_cases hlast : p.isLast (r.pos + 1) = true
+      · simp [hlast] at hs
+      · simp [hlast] at hs
+        subst hs
+        refine ⟨?_, ?_, ?_, ?_⟩
+        · exact push_caps { r with pos := r.pos + 1 } e nxt.alias h.capsEq
+        · show r.pos + 1 + 1 < p.steps.length
+          have := h.pos
+          unfold Pat.isLast at hlast
+          simp at hlast; omega
+        · simp [Run.entered, Run.push]
+        · intro en hen
+          simp [Run.entered, Run.push] at hen
+          rcases hen with hen | hen
+          · exact h.part en hen
+          · subst hen; exact hk
+    · simp [hm] at hs
+      subst hs; exact h
+
+theorem Lite.start {p : Pat} {e : Event} {r : Run} (hfree : p.allFree = true) (h : tryStart p e = some r)
+    (hone : p.oneStep = false) : Lite p (keyOf p e) r := by
+  unfold tryStart at h
+  cases hs : p.steps with
+  | nil => simp [hs] at h
+  | cons s0 rest =>
+    simp only [hs] at h
+    have hk : s0.kleene = false := allFree_get hfree (i := 0) (by simp [hs])
+    by_cases hm : matchesState s0 e [] = true
+    · rw [if_pos hm] at h
+      cases h
+      refine ⟨push_caps _ _ _ rfl, ?_, by simp [Run.push], ?_⟩
+      · show 0 + 1 < p.steps.length
+        unfold Pat.oneStep Pat.isLast at hone
+        simp [hs, hk] at hone ⊢
+        cases rest with
+        | nil => simp at hone
+        | cons _ _ => simp
+      · intro en hen
+        have : en = ⟨e, s0.alias⟩ := by simpa [Run.push] using hen
+        subst this; rfl
+    · rw [if_neg hm] at h; cases h
+
+/-- every stored run satisfies the light invariant -/
+def LiteEng (p : Pat) (s : Eng) : Prop := ∀ k, ∀ r ∈ s.parts k, Lite p k r
+
+theorem LiteEng.step {p : Pat} {cfg : Cfg} {s : Eng} {e : Event} (hfree : p.allFree = true) (h : LiteEng p s) :
+    LiteEng p (stepEngine p cfg s e).1 := by
+  rw [stepEngine_eq]
+  intro k r hr
+  simp only at hr
+  have hmarked : ∀ k, ∀ r ∈ (s.parts k).map (markNeg p e), Lite p k r := by
+    intro k r hr
+    obtain ⟨r0, hr0, rfl⟩ := List.mem_map.mp hr
+    exact (h k r0 hr0).mark
+  by_cases hk : k = keyOf p e
+  · subst hk
+    rw [if_pos rfl] at hr
+    have hruns : ∀ r ∈ (processRuns p cfg e ((s.parts (keyOf p e)).map (markNeg p e)) 0 []).1, Lite p (keyOf p e) r := by
+      intro r hr
+      rw [processRuns_eq_loop2] at hr
+      have := ((loop2_perm p cfg e _ _ _).1.mem_iff).mp hr
+      simp only [List.take_zero, List.drop_zero, List.nil_append] at this
+      obtain ⟨r1, hr1, hs1⟩ := List.mem_filterMap.mp this
+      exact (hmarked _ r1 hr1).survive hfree rfl hs1
+    unfold startRun at hr
+    cases hts : tryStart p e with
+    | none => simp only [hts] at hr; exact hruns r hr
+    | some rn =>
+      simp only [hts] at hr
+      by_cases hone : p.oneStep = true
+      · rw [if_pos hone] at hr; exact hruns r hr
+      · rw [if_neg hone] at hr
+        by_cases hlen : (processRuns p cfg e ((s.parts (keyOf p e)).map (markNeg p e)) 0 []).1.length < cfg.maxRuns
+        · rw [if_pos hlen] at hr
+          rcases List.mem_append.mp hr with hr | hr
+          · exact hruns r hr
+          · have : r = rn := by simpa using hr
+            subst this
+            exact Lite.start hfree hts (by simpa using hone)
+        · rw [if_neg hlen] at hr; exact hruns r hr
+  · rw [if_neg hk] at hr
+    exact hmarked k r hr
+
+/-! ### per-partition refinement -/
+
+theorem filterMap_eq_flatMap {α β} (f : α → Option β) (l : List α) : l.filterMap f = l.flatMap (fun x => (f x).toList) := by
+  induction l with
+  | nil => rfl
+  | cons x xs ih => cases h : f x <;> simp [h, ih]
+
+theorem filterMap_append_perm {α β} (f g : α → Option β) (l : List α) :
+    (l.filterMap f ++ l.filterMap g).Perm (l.flatMap (fun x => (f x).toList ++ (g x).toList)) := by
+  induction l with
+  | nil => simp
+  | cons x xs ih =>
+    rw [filterMap_eq_flatMap, filterMap_eq_flatMap] at ih ⊢
+    simp only [List.flatMap_cons]
+    -- (fx ++ F) ++ (gx ++ G) ~ (fx ++ gx) ++ (F ++ G)
+    have h1 : ((f x).toList ++ xs.flatMap (fun x => (f x).toList) ++ ((g x).toList ++ xs.flatMap (fun x => (g x).toList))).Perm
+        ((f x).toList ++ (g x).toList ++ (xs.flatMap (fun x => (f x).toList) ++ xs.flatMap (fun x => (g x).toList))) := by
+      simp only [List.append_assoc]
+      apply List.Perm.append_left
+      rw [← List.append_assoc, ← List.append_assoc]
+      exact List.Perm.append_right _ List.perm_append_comm
+    exact h1.trans (List.Perm.append_left _ ih)
+
+/-- matches emitted on events of partition `k` -/
+def emittedK (p : Pat) (k : String) (X : List (Event × List Match)) : List Match :=
+  (X.filter (fun x => keyOf p x.1 == k)).flatMap (·.2)
+
+/-- the oracle's candidates that start on events of partition `k` -/
+def specK (p : Pat) (k : String) : List Event → List Match
+  | [] => []
+  | e :: es => (if keyOf p e == k then (Spec.startAtNF p e es).toList else []) ++ specK p k es
+
+theorem startRun_dropped {p : Pat} {cfg : Cfg} {e : Event} {runs' : List Run} {ms : List Match} {d : Bool}
+    (h : (startRun p cfg e runs' ms d).2.2 = false) : d = false := by
+  unfold startRun at h
+  split at h
+  · split at h
+    · exact h
+    · split at h
+      · exact h
+      · cases h
+  · exact h
+
+theorem stepEngine_dropped {p : Pat} {cfg : Cfg} {s : Eng} {e : Event}
+    (h : (stepEngine p cfg s e).1.dropped = false) : s.dropped = false := by
+  rw [stepEngine_eq] at h
+  exact startRun_dropped h
+
+theorem runFrom_dropped {p : Pat} {cfg : Cfg} : ∀ (evs : List Event) (s : Eng),
+    (runFrom p cfg s evs).1.dropped = false → s.dropped = false := by
+  intro evs
+  induction evs with
+  | nil => intro s h; exact h
+  | cons e es ih =>
+    intro s h
+    unfold runFrom at h
+    exact stepEngine_dropped (ih _ h)
+
+theorem fut_nil {p : Pat} {k : String} {r : Run} (h : Lite p k r) : fut p k [] r = none := by
+  unfold fut
+  obtain ⟨nxt, hnxt⟩ : ∃ nxt, p.steps[r.pos + 1]? = some nxt := ⟨_, List.getElem?_eq_getElem h.pos⟩
+  rw [drop_cons_of_get hnxt]
+  split
+  · rfl
+  · rw [Spec.followNF]
+
+theorem flatMap_congr_mem {α β} {l : List α} {f g : α → List β} (h : ∀ x ∈ l, f x = g x) : l.flatMap f = l.flatMap g := by
+  induction l with
+  | nil => rfl
+  | cons x xs ih =>
+    simp only [List.flatMap_cons]
+    rw [h x List.mem_cons_self, ih (fun y hy => h y (List.mem_cons_of_mem _ hy))]
+
+/-- the run loop on the event's own partition, against the per-run scans -/
+theorem loop_fut {p : Pat} {cfg : Cfg} {e : Event} {es : List Event} {runs : List Run}
+    (hfree : p.allFree = true) (hl : ∀ r ∈ runs, Lite p (keyOf p e) r) :
+    ((processRuns p cfg e (runs.map (markNeg p e)) 0 []).2 ++
+      (processRuns p cfg e (runs.map (markNeg p e)) 0 []).1.filterMap (fut p (keyOf p e) es)).Perm
+    (runs.filterMap (fut p (keyOf p e) (e :: es))) := by
+  rw [processRuns_eq_loop2]
+  have hp := loop2_perm p cfg e [] (runs.map (markNeg p e)) []
+  simp only [List.take_zero, List.drop_zero, List.nil_append] at hp ⊢
+  refine (List.Perm.append hp.2 (hp.1.filterMap _)).trans ?_
+  rw [List.filterMap_filterMap]
+  refine (filterMap_append_perm _ _ _).trans ?_
+  rw [List.flatMap_map, filterMap_eq_flatMap]
+  rw [flatMap_congr_mem]
+  intro r0 hr0
+  exact (fut_step_same (cfg := cfg) hfree (hl r0 hr0) (by simp)).symm
+
+theorem startAtNF_of_tryStart_none {p : Pat} {e : Event} {es : List Event} (h : tryStart p e = none) :
+    Spec.startAtNF p e es = none := by
+  unfold tryStart at h
+  unfold Spec.startAtNF
+  cases hs : p.steps with
+  | nil => rfl
+  | cons s0 rest =>
+    simp only [hs] at h ⊢
+    by_cases hm : matchesState s0 e [] = true
+    · simp [hm] at h
+    · simp [hm]
+
+/-- `try_start_run_shared` (+ the push) against the oracle's new candidate -/
+theorem startRun_fut {p : Pat} {cfg : Cfg} {e : Event} {es : List Event} {runs' : List Run} {ms : List Match} {d : Bool}
+    (hfree : p.allFree = true) (hd : (startRun p cfg e runs' ms d).2.2 = false) :
+    ((startRun p cfg e runs' ms d).2.1 ++ (startRun p cfg e runs' ms d).1.filterMap (fut p (keyOf p e) es)).Perm
+    ((ms ++ runs'.filterMap (fut p (keyOf p e) es)) ++ (Spec.startAtNF p e es).toList) := by
+  unfold startRun at hd ⊢
+  cases hts : tryStart p e with
+  | none => simp [startAtNF_of_tryStart_none hts]
+  | some rn =>
+    simp only [hts] at hd ⊢
+    -- shape of the new run
+    have hts' := hts
+    unfold tryStart at hts'
+    cases hs : p.steps with
+    | nil => simp [hs] at hts'
+    | cons s0 rest =>
+      simp only [hs] at hts'
+      by_cases hm : matchesState s0 e [] = true
+      · rw [if_pos hm] at hts'
+        have hrn : rn = ({ pos := 0, stack := [], caps := [], invalidated := false, kc := none } : Run).push e s0.alias := by
+          cases hts'; rfl
+        have hk0 : s0.kleene = false := allFree_get hfree (i := 0) (by simp [hs])
+        have hspec : Spec.startAtNF p e es = Spec.followNF p (keyOf p e) rest [⟨e, s0.alias⟩] es := by
+          unfold Spec.startAtNF; simp [hs, hm]
+        by_cases hone : p.oneStep = true
+        · rw [if_pos hone]
+          have hrest : rest = [] := by
+            unfold Pat.oneStep Pat.isLast at hone
+            simp [hs, hk0] at hone
+            exact hone
+          subst hrest
+          rw [hspec, Spec.followNF]
+          have : rn.result = ⟨[⟨e, s0.alias⟩], capsOf [⟨e, s0.alias⟩]⟩ := by
+            rw [hrn]; unfold Run.result
+            rw [push_caps _ _ _ rfl]; rfl
+          simp only [this, Option.toList_some]
+          simp only [List.append_assoc]
+          apply List.Perm.append_left
+          exact List.perm_append_comm
+        · rw [if_neg hone] at hd ⊢
+          by_cases hlen : runs'.length < cfg.maxRuns
+          · rw [if_pos hlen]
+            simp only [List.filterMap_append]
+            have : [rn].filterMap (fut p (keyOf p e) es) = (Spec.startAtNF p e es).toList := by
+              have hf : fut p (keyOf p e) es rn = Spec.followNF p (keyOf p e) rest [⟨e, s0.alias⟩] es := by
+                rw [hrn]; unfold fut; simp [Run.push, hs]
+              rw [hspec]
+              cases h : Spec.followNF p (keyOf p e) rest [⟨e, s0.alias⟩] es <;> simp [hf, h]
+            rw [this, List.append_assoc]
+          · rw [if_neg hlen] at hd; cases hd
+      · rw [if_neg hm] at hts'; cases hts'
+
+theorem specK_cons (p : Pat) (k : String) (e : Event) (es : List Event) :
+    specK p k (e :: es) = (if keyOf p e == k then (Spec.startAtNF p e es).toList else []) ++ specK p k es := rfl
+
+/-- **per-partition refinement**: on an `all`-free pattern, as long as backpressure never refuses a
+run, the matches emitted on events of partition `k` are exactly what the stored runs of `k` and the
+later start events of `k` yield under the scan `followNF`. -/
+theorem perKey {p : Pat} {cfg : Cfg} (hfree : p.allFree = true) (k : String) :
+    ∀ (later : List Event) (s : Eng), LiteEng p s → (runFrom p cfg s later).1.dropped = false →
+      (emittedK p k (runFrom p cfg s later).2).Perm ((s.parts k).filterMap (fut p k later) ++ specK p k later) := by
+  intro later
+  induction later with
+  | nil =>
+    intro s hl _
+    have : (s.parts k).filterMap (fut p k []) = [] := by
+      apply List.filterMap_eq_nil_iff.mpr
+      intro r hr; exact fut_nil (hl k r hr)
+    simp [runFrom, emittedK, specK, this]
+  | cons e es ih =>
+    intro s hl hd
+    have hl' := hl.step (cfg := cfg) (e := e) hfree
+    unfold runFrom at hd ⊢
+    simp only [] at hd ⊢
+    have hd' : (stepEngine p cfg s e).1.dropped = false := runFrom_dropped es _ hd
+    have IH := ih (stepEngine p cfg s e).1 hl' hd
+    by_cases hk : (keyOf p e == k) = true
+    · have hke : keyOf p e = k := by simpa using hk
+      subst hke
+      have hem : emittedK p (keyOf p e) ((e, (stepEngine p cfg s e).2) :: (runFrom p cfg (stepEngine p cfg s e).1 es).2)
+          = (stepEngine p cfg s e).2 ++ emittedK p (keyOf p e) (runFrom p cfg (stepEngine p cfg s e).1 es).2 := by
+        simp [emittedK]
+      rw [hem]
+      refine (List.Perm.append_left _ IH).trans ?_
+      rw [stepEngine_eq] at hd' ⊢
+      simp only [if_true] at hd' ⊢
+      rw [specK_cons]
+      simp only [hk, if_true]
+      rw [← List.append_assoc, ← List.append_assoc]
+      apply List.Perm.append_right
+      refine (startRun_fut (es := es) hfree hd').trans ?_
+      apply List.Perm.append_right
+      exact loop_fut hfree (hl _)
+    · have hke : keyOf p e ≠ k := by simpa using hk
+      have hem : emittedK p k ((e, (stepEngine p cfg s e).2) :: (runFrom p cfg (stepEngine p cfg s e).1 es).2)
+          = emittedK p k (runFrom p cfg (stepEngine p cfg s e).1 es).2 := by
+        simp [emittedK, hk]
+      rw [hem]
+      refine IH.trans ?_
+      have hparts : (stepEngine p cfg s e).1.parts k = (s.parts k).map (markNeg p e) := by
+        rw [stepEngine_eq]; simp [Ne.symm hke]
+      rw [hparts, List.filterMap_map]
+      rw [specK_cons]
+      simp only [hk]
+      have : (s.parts k).filterMap (fut p k es ∘ markNeg p e) = (s.parts k).filterMap (fut p k (e :: es)) := by
+        rw [filterMap_eq_flatMap, filterMap_eq_flatMap]
+        apply flatMap_congr_mem
+        intro r0 hr0
+        simp [fut_step_other (hl k r0 hr0) (by simpa using hk)]
+      rw [this]
+      simp
+
 end Varpulis.Sase
